@@ -729,6 +729,8 @@ class ObjectMixin:
         prim = {SBool: {"bool", "int", "object"}, SInt: {"int", "object"}, SStr: {"str", "object"}, SFloat: {"float", "object"},
                 SList: {"list", "object", "Sequence", "Iterable"}, SDict: {"dict", "object", "Mapping"}, SSet: {"set", "frozenset", "object"},
                 STuple: {"tuple", "object", "Sequence"}}
+        if type(obj).__name__ == "SSqlCell" and getattr(obj, "coltype", "").startswith(("TEXT", "VARCHAR", "CHAR")):
+            return z3.BoolVal(cname in ("str", "object"))
         for k, names in prim.items():
             if isinstance(obj, k):
                 return z3.BoolVal(cname in names)
